@@ -678,3 +678,115 @@ Section KeptDisc.
                h s1 s2 Fin S' HI1 (proj2 (inv_kept U (R a) cfg k s2 Fin S') HI2) HX1 HX2 HK Hh').
   Qed.
 End KeptDisc.
+
+(* ---------------------------------------------------------------- noise deletion across the discovery *)
+
+Lemma ignore_transfer first incl alltrig f1 f2 b : same_but_final f1 f2 ->
+  fc_step first incl alltrig f2 b = f2 -> fc_step first incl alltrig f1 b = f1.
+Proof.
+  destruct f1 as [r1 l1 t1 n1], f2 as [r2 l2 t2 n2]. intros (E1 & E2 & E3). cbn in E1, E2, E3. subst r2 l2 t2.
+  unfold fc_step. cbn [fc_recv fc_lib fc_tip fc_final].
+  assert (G : forall (x y : fc_state), fc_recv x = b :: fc_recv y -> x = y -> False).
+  { intros x y Hx E. rewrite E in Hx. apply (f_equal (@length block)) in Hx. cbn [length] in Hx. lia. }
+  destruct ((bnum b <? rn l1) && match t1 with Some _ => true | None => false end); [reflexivity|].
+  destruct (incl && negb match t1 with Some _ => true | None => false end && (bid b =? ri l1)).
+  { intros H. exfalso. apply (G _ _ (eq_refl : fc_recv (mkFC (b :: r1) l1 (Some b) (Some b)) = b :: fc_recv (mkFC r1 l1 t1 n2)) H). }
+  destruct (lookup (bid b) r1); [reflexivity|].
+  match goal with |- context [if ?c then _ else _] => destruct c end.
+  - destruct (ancestor_at _ _ _ _) as [a|]; [destruct (rn l1 <? bnum a)|]; intros H; exfalso;
+      refine (G _ (mkFC r1 l1 t1 n2) _ H); reflexivity.
+  - intros H. exfalso. refine (G _ (mkFC r1 l1 t1 n2) _ H). reflexivity.
+Qed.
+
+Section DelDisc.
+  Variable U : list block.
+  Variable cfg : config.
+
+  Hypothesis Hnofail : c_fail_at cfg = None.
+  Hypothesis Hnew : f_new (c_filter cfg) = true.
+  Hypothesis Hundo : f_undo (c_filter cfg) = true.
+  Hypothesis Hhold : c_hold cfg = true.
+  Hypothesis Hincl : c_incl cfg = false.
+
+  Hypothesis U_id : forall b, In b U -> bid b <> 0 /\ bid b <> bparent b.
+  Hypothesis U_uniq : forall x y, In x U -> In y U -> bid x = bid y -> x = y.
+  Hypothesis U_up : forall x y, In x U -> In y U -> bparent x = bid y -> bnum y < bnum x.
+  Hypothesis D_decl : forall b, In b U -> decl_none U b.
+
+  Notation step := (fcd_step (c_first cfg) (c_alltrig cfg)).
+
+  Lemma fold_live : forall h fc, Live fc -> (forall x, In x h -> bid x <> 0) ->
+    fold_left step h fc = fc_after cfg fc h /\ Live (fc_after cfg fc h).
+  Proof.
+    induction h as [|x h IH]; intros fc HL Hh; [split; [reflexivity | exact HL]|].
+    unfold fc_after. cbn [fold_left]. fold (fc_after cfg (fc_step (c_first cfg) (c_incl cfg) (c_alltrig cfg) fc x) h).
+    destruct (live_step (c_first cfg) (c_alltrig cfg) fc x HL (Hh x (or_introl eq_refl))) as [E HL'].
+    rewrite E, Hincl. apply IH; [exact HL' | intros y Hy; apply Hh; right; exact Hy].
+  Qed.
+
+  Lemma after_same : forall h f1 f2, same_but_final f1 f2 -> same_but_final (fc_after cfg f1 h) (fc_after cfg f2 h).
+  Proof.
+    induction h as [|x h IH]; intros f1 f2 Hs; [exact Hs|]. unfold fc_after. cbn [fold_left].
+    apply IH. exact (proj1 (fc_step_final (c_first cfg) (c_incl cfg) (c_alltrig cfg) f1 f2 x Hs)).
+  Qed.
+
+  Lemma del_pre b h2 : forall h1 s fc, PreInv U cfg s -> PRel U fc s -> (forall x, In x (h1 ++ b :: h2) -> In x U) ->
+    step (fold_left step h1 fc) b = fold_left step h1 fc ->
+    let T := fk_run cfg s (h1 ++ h2) in
+    fk_run cfg s (h1 ++ b :: h2) = firstn (length h1) T ++ ([], ROk) :: skipn (length h1) T.
+  Proof.
+    induction h1 as [|x h1 IH]; intros s fc HP HR Hh Hig; cbv zeta.
+    - cbn [fold_left app length firstn skipn] in *.
+      assert (Hb : In b U) by (apply Hh; left; reflexivity).
+      destruct (pre_step_x U cfg Hnofail Hnew Hundo Hhold Hincl U_id U_uniq U_up D_decl s fc b HP HR Hb)
+        as [(s1 & Hst & _ & _ & [[-> _]|[_ E]])|(s1 & a & Fin & S' & M & f & _ & _ & Hfc & _)].
+      + cbn [fk_run]. rewrite Hst. reflexivity.
+      + exfalso. rewrite Hig in E. apply (f_equal (@length block)) in E. cbn [length] in E. lia.
+      + exfalso. rewrite Hig in Hfc. apply (f_equal fc_recv) in Hfc. cbn [fc_recv] in Hfc.
+        apply (f_equal (@length block)) in Hfc. cbn [length] in Hfc. lia.
+    - assert (Hx : In x U) by (apply Hh; left; reflexivity).
+      assert (Hh' : forall z, In z (h1 ++ b :: h2) -> In z U) by (intros z Hz; apply Hh; right; exact Hz).
+      cbn [fold_left] in Hig. cbn [app length fk_run].
+      destruct (pre_step_x U cfg Hnofail Hnew Hundo Hhold Hincl U_id U_uniq U_up D_decl s fc x HP HR Hx)
+        as [(s1 & Hst & HP1 & HR1 & _)|(s1 & a & Fin & S' & M & f & Hst & HaU & Hfc & HI1 & HX1 & HR0 & _)].
+      + rewrite Hst. pose proof (IH s1 _ HP1 HR1 Hh' Hig) as E. cbv zeta in E. rewrite E. reflexivity.
+      + rewrite Hst.
+        set (fc1 := step fc x) in *. set (fc0 := mkFC (x :: fc_recv fc) (R a) (Some x) (hd_error (rev Fin))) in *.
+        assert (Hsame : same_but_final fc0 fc1) by (rewrite Hfc; repeat split).
+        assert (HL1 : Live fc1).
+        { rewrite Hfc. split; [exact (proj1 (U_id a HaU))|]. pose proof HR as [_ _ _ RU _ _].
+          intros z [<-|Hz]; [exact (proj1 (U_id x Hx)) | exact (proj1 (U_id z (RU z Hz)))]. }
+        assert (Hh0 : forall z, In z h1 -> bid z <> 0).
+        { intros z Hz. apply (proj1 (U_id z (Hh' z (in_or_app _ _ _ (or_introl Hz))))). }
+        destruct (fold_live h1 fc1 HL1 Hh0) as [Ef HLf]. rewrite Ef in Hig.
+        assert (Hb : In b U) by (apply Hh'; apply in_or_app; right; left; reflexivity).
+        rewrite (proj1 (live_step (c_first cfg) (c_alltrig cfg) _ b HLf (proj1 (U_id b Hb)))) in Hig.
+        pose proof (ignore_transfer (c_first cfg) false (c_alltrig cfg) _ _ b (after_same h1 fc0 fc1 Hsame) Hig) as Hig0.
+        rewrite <- Hincl in Hig0.
+        pose proof (noise_deletion U (R a) cfg Hnofail Hnew Hundo U_id U_uniq U_up
+                      (R_id U U_id a HaU) (R_num U U_uniq a HaU) (R_up U U_up a HaU) (R_decl U U_uniq D_decl a HaU)
+                      s1 Fin S' fc0 h1 b h2 HI1 HX1 HR0 Hh' Hig0) as E. cbv zeta in E. rewrite E. reflexivity.
+  Qed.
+End DelDisc.
+
+(* ---------------------------------------------------------------- the statement *)
+
+Lemma c03_discovery_full_proved : c03_discovery_full.
+Proof.
+  intros cfg h Hhold Hincl Hnofail Hnew Hundo Hscope step t lib.
+  assert (Hwf : wf_b h = true) by (unfold disc_scope2_b in Hscope; apply andb_true_iff in Hscope; tauto).
+  pose proof (bridge_id h Hwf) as B1. pose proof (bridge_uniq h Hwf) as B2. pose proof (bridge_up h Hwf) as B3.
+  pose proof (bridge2_decl_none h Hscope) as B4.
+  assert (HR0 : PRel h (fc_init LNone) (fs_init LNone)) by (constructor; cbn; try reflexivity; intros x []).
+  assert (HL : FirstLib lib t).
+  { unfold FirstLib, lib, root_lib. destruct (all_events t); [exact I | reflexivity]. }
+  destruct (disc_run_full h cfg Hnofail Hnew Hundo Hhold Hincl B1 B2 B3 B4 h (fs_init LNone) (fc_init LNone)
+              (pre_init h cfg) HR0 (fun b Hb => Hb) lib HL) as (G1 & G2 & G3).
+  split; [exact G1|]. split; [exact G2|]. split; [exact G3|]. split.
+  - intros k. exact (kept_pre h cfg k Hnofail Hnew Hundo Hhold Hincl B1 B2 B3 B4 h (fs_init LNone) (fc_init LNone)
+                       (pre_init h cfg) HR0 (fun b Hb => Hb)).
+  - intros h1 b h2 Hh fc Hig T.
+    apply (del_pre h cfg Hnofail Hnew Hundo Hhold Hincl B1 B2 B3 B4 b h2 h1 (fs_init LNone) (fc_init LNone) (pre_init h cfg) HR0).
+    + intros x Hx. rewrite Hh. exact Hx.
+    + exact Hig.
+Qed.
